@@ -123,9 +123,21 @@ def check_c08(seed, tier, root=None):
                 t.has_events
                 _ = t.events
                 return t, False
+            if mode == "plain context after allow_write and an implicit reader context":
+                t.allow_write()
+                t.has_events                                   # opens and leaves a context of its own: the permission is used up
+                return t, True
+            if mode == "plain context after allow_write and a failed implicit reader":
+                t.allow_write()
+                try:
+                    t.data3D
+                except Exception:
+                    pass
+                return t, True
             raise KeyError(mode)
         refused_modes = ["no context", "allow_write without context", "read-only context", "context after a write context", "no context after a write context",
-                         "context after a write context left by an exception", "no context after a failed reader", "no context after reading"]
+                         "context after a write context left by an exception", "no context after a failed reader", "no context after reading",
+                         "plain context after allow_write and an implicit reader context", "plain context after allow_write and a failed implicit reader"]
         stored = dict(events=Tdf(base).events, emg=Tdf(base).emg)
         for mname, call in mutators(rng, stored).items():
             for mode in refused_modes:
@@ -192,6 +204,39 @@ def check_c08(seed, tier, root=None):
                         fails.append(_f("C08", "C08.handle_open", f"after reader {rname} in mode '{mode}' the handle of {nm} is still open", case, seed))
                     if getattr(obj, "_inside_context", False):
                         fails.append(_f("C08", "C08.handle_open", f"after reader {rname} in mode '{mode}' {nm} still believes it is inside a context", case, seed))
+        # an object that has genuinely written before: its readers still never write (dates in the file made old again first,
+        # so that any refreshed date shows whatever the resolution of the clock)
+        for rname, call in readers().items():
+            for mode in ("allow_write without context", "write context", "read-only context", "no context"):
+                n += 1
+                case = dict(reader=rname, mode=mode + ", on an object that wrote before")
+                t = fresh()
+                o = Tdf(other)
+                try:
+                    with t.allow_write() as tt:
+                        tt.add_block(gen.optical(rng, 1))
+                        tt.remove_block(tt.entries[0].type)
+                except Exception as e:
+                    fails.append(_f("C08", "C08.setup", f"preparing an object that wrote before raised {e!r}", case, seed))
+                    break
+                _age(work)
+                before = _sha(work)
+                try:
+                    if mode == "no context":
+                        call(t, o)
+                    elif mode == "allow_write without context":
+                        t.allow_write()
+                        call(t, o)
+                    elif mode == "read-only context":
+                        with t:
+                            call(t, o)
+                    else:
+                        with t.allow_write():
+                            call(t, o)
+                except Exception:
+                    pass
+                if _sha(work) != before:
+                    fails.append(_f("C08", "C08.reader_modified", f"reader {rname} in mode '{mode}' changed the file (the object had written to it in an earlier context)", case, seed))
         # copy is a reader of the source
         n += 1
         t = fresh()
@@ -380,6 +425,31 @@ def check_c17(seed, tier, root=None):
                     fails.append(_f("C17", "C17.copy_independent", "mutating the original changed the copy", case, seed))
             except Exception as e:
                 fails.append(_f("C17", "C17.copy", f"copy scenario '{scenario}' raised {e!r}", case, seed))
+        # copying a file onto itself, under whatever name: refused like any existing target, the file stays as it is
+        s3 = os.path.join(d, "self.tdf")
+        shutil.copyfile(src, s3)
+        os.makedirs(os.path.join(d, "sub"), exist_ok=True)
+        aliases = [("the same path", s3), ("another spelling of the same path", os.path.join(d, "sub", "..", "self.tdf"))]
+        try:
+            os.symlink(s3, os.path.join(d, "link.tdf"))
+            aliases.append(("a symbolic link to the source", os.path.join(d, "link.tdf")))
+            os.link(s3, os.path.join(d, "hard.tdf"))
+            aliases.append(("a hard link to the source", os.path.join(d, "hard.tdf")))
+        except OSError:
+            pass
+        for what, target in aliases:
+            n += 1
+            case = dict(op="copy", target=what)
+            before = _sha(s3)
+            try:
+                c = Tdf(s3).copy(target)
+                fails.append(_f("C17", "C17.clobber", f"copy onto {what} did not raise", case, seed))
+            except FileExistsError:
+                pass
+            except Exception as e:
+                fails.append(_f("C17", "C17.clobber", f"copy onto {what} raised {e!r} instead of FileExistsError", case, seed))
+            if not os.path.exists(s3) or _sha(s3) != before:
+                fails.append(_f("C17", "C17.clobber", f"copy onto {what} changed the file", case, seed))
         # opening
         n += 1
         try:
@@ -389,8 +459,11 @@ def check_c17(seed, tier, root=None):
             pass
         except Exception as e:
             fails.append(_f("C17", "C17.open_missing", f"opening a missing path raised {e!r}", dict(op="open", target="absent"), seed))
-        for what, content in (("non-TDF", b"not a tdf file at all, long enough to hold a header" * 4), ("empty", b""), ("truncated signature", b"\x82K`A"),
-                              ("signature with one wrong byte", b"\x82K`A\xd3\x11\x84\xca`\x00\xb6\xac\x16h\x0c\x09" + b"\x00" * 4080)):
+        real = open(src, "rb").read()
+        plausible = [("a TDF file whose signature is zeroed", b"\x00" * 16 + real[16:]), ("a TDF file with one signature byte flipped", bytes([real[0] ^ 1]) + real[1:]),
+                     ("a TDF file carrying another GUID", bytes(range(16)) + real[16:]), ("a TDF file with the last signature byte off by one", real[:15] + bytes([(real[15] + 1) % 256]) + real[16:])]
+        for what, content in plausible + [("non-TDF", b"not a tdf file at all, long enough to hold a header" * 4), ("empty", b""), ("truncated signature", b"\x82K`A"),
+                              ("signature with one wrong byte", b"\x82K`A\xd3\x11\x84\xca`\x00\xb6\xac\x16h\x0c\x09" + b"\x00" * 4080)]:
             n += 1
             p = os.path.join(d, f"bad_{abs(hash(what)) % 1000}.tdf")
             open(p, "wb").write(content)
